@@ -44,7 +44,7 @@ Dt == IF cfg.alg.t = "pid" THEN cfg.alg.dt ELSE 200
 
 Init == \E a \in Algs, lim \in Lims, cv \in CSet, p0 \in StartSet :
           /\ CInit(CfgOfAlg(a, lim), p0, 2, Rat(0, 1))
-          /\ touched = FALSE /\ zeros = 0 /\ H4Init
+          /\ touched = FALSE /\ zeros = 0 /\ spin = 0 /\ H4Init
           /\ c = cv
 
 Next == /\ \E cv \in {0, c, P} : CycleAlg(cv, Dt) /\ HCycle /\ H4Cycle
